@@ -136,6 +136,9 @@ class ConcreteEx:
     def no_div_witness(self):
         pass
 
+    def merge_conditionals(self, on=True):
+        pass
+
     def prefer_int(self, on=True):
         pass
 
@@ -270,6 +273,10 @@ def _install_explorer_api():
         that compute but never examine a wide quotient."""
         core.DIV_WITNESS = False
 
+    def merge_conditionals(self, on=True):
+        instr.MERGE_CONDITIONALS = on
+
+    E.merge_conditionals = merge_conditionals
     E.no_div_witness = no_div_witness
     E.concrete_randomness = concrete_randomness
     E.inputs_value = inputs_value
